@@ -331,6 +331,9 @@ def name_collision_checks(ctx):
 
 @rule("R11.3", "C11", "block order: READ block, then EXEC+WRITE or statement blocks (dependencies sorted by creation id before their effect), then the instruction sequence, then return", min_instances=5)
 def r11_3(ctx):
+    from .c16 import r16_3
+
+    r16_3(ctx)  # the operand list the statement layout declares from stays in step with src / dest (set_src / set_dest), whatever the new operand wraps
     idx = get_index(ctx.env)
     fb = idx.func("RZILTransformer.fbody")
     et = idx.enum_table("CodeFormat")
